@@ -33,11 +33,14 @@ ASSUMPTIONS = [
     'an env value taken from a PROGRAM is generated in [setup] only with an explicit -of act / -of !act, and in later '
     'phases only without PHASE-SPEC (the manual does not say how often / in which set the program runs when both sets '
     'are changed at once)',
-    'values never contain text that would form a new ${..} element after substitution (no literal "{" / "}"), since the '
-    'manual does not say whether substituted text is expanded again; variable names are [A-Z]+ only',
+    'the references expanded are those "in the value" as written (statement): text that only after substitution has '
+    'the form ${..} (a substituted `$` followed by `{VC}`, a substituted value that itself reads `${VC}`) is not a '
+    'reference of the value and stays literal (one pass, as os.path.expandvars); a few fixed histories and 2.5% of the '
+    'random fragments produce such text; variable names are [A-Z]+ only',
     '`cd` is only generated into directories known to exist inside the sandbox (root, act, tmp, result and directories the '
     'prelude creates); failing cd is not part of this property',
-    'timeout values are >= 30 s so that no probe (which returns at once) can expire; real expiry belongs to C19',
+    'timeout values of the histories are >= 30 s so that no probe (which returns at once) can expire; real expiry '
+    'belongs to C19; the boundary value 0 is exercised apart (kind zero), decided by the M2 record only',
     'INTEGER of `timeout` is a plain decimal literal (expressions belong to C06/C18); string quoting is limited to '
     'naked / soft / hard without symbol references in env values (C09 owns string syntax)',
     'def: string symbols (literal, or concatenation with an earlier string symbol) and path symbols relative '
